@@ -76,15 +76,17 @@ def build_template(tpl):
         cl.append(Cluster("coordinates", [_o(names, "cQ", "coord", None, "Q", comps="xy")], cov=_cov(2, 1, 25.0, [10.0])))
         cl.append(Cluster("coordinates", [_o(names, "kQ", "coord", None, "Q", comps="xy")], cov=_cov(2, 0, 25.0, [])))
     elif tpl == "T3":
-        P = [Pt("A", 0, 0, 0, xy="fix", zs="fix"), Pt("B", 200, 0, 10, xy="fix", zs="fix"),
-             Pt("C", 0, 200, 30, xy="fix", zs="fix"),
-             Pt("P", 200, 100, 30, xy="adj", zs="adj"), Pt("Q", 100, 200, 10, xy="adj", zs="adj")]
+        # heights chosen so that the sights have several elevations: B-Q, A-B flat; P-Q dz/d = 0.42;
+        # A-P, C-P 0.54; B-P, C-Q 0.6 (slope / horizontal distance 1.00, 1.09, 1.13, 1.17)
+        P = [Pt("A", 0, 0, 0, xy="fix", zs="fix"), Pt("B", 200, 0, 60, xy="fix", zs="fix"),
+             Pt("C", 0, 200, 0, xy="fix", zs="fix"),
+             Pt("P", 200, 100, 120, xy="adj", zs="adj"), Pt("Q", 100, 200, 60, xy="adj", zs="adj")]
         cl = [_st("A", "BCPQ", 0.0, names), _st("B", "APQ", 30.0, names)]
         cl.append(Cluster("obs", [_o(names, "d" + a + b, "distance", a, b, stdev=5.0) for a, b in ("AP", "CQ")]))
         cl.append(Cluster("obs", [_o(names, "s" + a + b, "s-distance", a, b, stdev=5.0)
                                   for a, b in ("AP", "BP", "BQ", "CQ", "PQ")]))
         cl.append(Cluster("obs", [_o(names, "za" + a + b, "z-angle", a, b, stdev=10.0)
-                                  for a, b in ("AP", "BQ", "CP", "PQ")]))
+                                  for a, b in ("AP", "BQ", "BP", "CP", "PQ")]))
         cl.append(Cluster("height-differences", [_o(names, "h" + a + b, "dh", a, b, stdev=5.0)
                                                  for a, b in ("AP", "CQ", "PQ")]))
         cl.append(Cluster("vectors", [_o(names, "vAQ", "vec", "A", "Q"), _o(names, "vBP", "vec", "B", "P")],
@@ -102,6 +104,11 @@ def build_template(tpl):
               Cluster("coordinates", [_o(names, "kQ", "coord", None, "Q", comps="z")], cov=_cov(1, 0, 25.0, []))]
     else:
         raise ValueError(tpl)
+    # D10 (test on the homogenised right-hand side) is on the tree: the angular blunder targets get
+    # stdev 10, so that for sigma-apr = 10 the threshold clause is decidable for them at every size
+    for tg in TARGETS[tpl.split(".")[0]]:
+        o = names[tg.split(".")[0]]
+        if o.kind in ("direction", "angle", "azimuth", "z-angle"): o.stdev = 10.0
     net = Net(P, cl)
     return net, names
 
@@ -109,33 +116,48 @@ def build_template(tpl):
 # blunder targets per template: name[.components]; "exact" ones admit the factor 1 (misclosure == tol-abs exactly)
 TARGETS = {
     "T2": ["rAP", "rBQ", "rQC", "dAP", "dBP", "aCAQ", "aCQP", "zAQ", "cQ.x", "cQ.xy", "kQ.x"],
-    "T3": ["rBP", "sAP", "zaBQ", "hCQ", "vAQ.x", "vAQ.xyz", "vBP.z", "cP.z", "kP.z"],
+    "T3": ["rBP", "sAP", "sBP", "zaBQ", "zaPQ", "zaAP", "zaBP", "hCQ", "vAQ.x", "vAQ.xyz", "vBP.z", "cP.z", "kP.z"],
     "TL": ["hPQ", "hQR", "cQ.z", "kQ.z"],
 }
 EXACT = {"T2": ["dBP"], "T3": ["hCQ"], "TL": ["hAP"]}
 # the last coordinates record of a point defines its approximate coordinates: an error there is a
 # shift of the approximate coordinates, not a misclosure of that observation
 SHIFT = {"kQ", "kP"}
+# a point whose ONLY element is one observation, in every role of every type that does not determine
+# it: v-* the point has coordinates (removed after the first revision: singular_coords / null_space),
+# u-* it has none (removed by revision_points).  r-st: the point is the station of two directions.
+ROLES = {"T2": ["d-from", "d-to", "r-st", "r-to", "a-st", "a-bs", "a-fs", "z-from", "z-to"],
+         "T3": ["d-to", "s-from", "s-to", "za-from", "za-to"], "TL": []}
 STRUCT = {
-    "T2": ["iso", "isonc", "u1d", "u1r", "v1d", "v1r", "w2d", "sgl", "sgld", "dup"],
-    "T3": ["iso3", "iso3nc", "isoz", "u1s", "sgl"],
+    "T2": ["iso", "isonc", "w2d", "sgl", "sgld", "dup"] + [p + r for p in ("v-", "u-") for r in ROLES["T2"]],
+    "T3": ["iso3", "iso3nc", "isoz", "sgl"] + [p + r for p in ("v-", "u-") for r in ROLES["T3"]],
     "TL": ["isoL", "isoLnc"],
 }
+_POS = [(50, 50), (150, 50), (50, 150), (150, 150), (50, 100), (150, 100), (100, 50), (100, 150), (30, 70)]
 
 
 def add_struct(net, names, d):
     P, C = net.points, net.clusters
     def st(frm, to): return Obs("direction", frm, to, stdev=10.0)
-    if d == "iso":      P.append(Pt("I", 50, 50, xy="adj"))
+    if d[:2] in ("v-", "u-"):
+        role = d[2:]; three = any(p.z is not None for p in P)
+        allr = ROLES["T3" if three else "T2"]
+        k = allr.index(role); x, y = _POS[k]
+        pid = (d[0] + role.replace("-", "")).upper()
+        has = d[0] == "v"
+        if three: P.append(Pt(pid, x, y, 30, xy="adj", zs="adj", ax=has, az=has))
+        else:     P.append(Pt(pid, x, y, xy="adj", ax=has))
+        kind = {"d": "distance", "r": "direction", "a": "angle", "z": "azimuth", "s": "s-distance", "za": "z-angle"}[role.split("-")[0]]
+        sd = 5.0 if kind in ("distance", "s-distance") else 10.0
+        if role == "r-st":   C.append(Cluster("obs", [st(pid, "A"), st(pid, "B")], frm=pid, zero=40.0))
+        elif role == "r-to": C[1].obs.append(st("B", pid))
+        elif role == "a-st": C.append(Cluster("obs", [Obs("angle", pid, bs="A", fs="B", stdev=sd)]))
+        elif role == "a-bs": C.append(Cluster("obs", [Obs("angle", "C", bs=pid, fs="A", stdev=sd)]))
+        elif role == "a-fs": C.append(Cluster("obs", [Obs("angle", "C", bs="A", fs=pid, stdev=sd)]))
+        elif role.endswith("-from"): C.append(Cluster("obs", [Obs(kind, pid, "A", stdev=sd)]))
+        else:                        C.append(Cluster("obs", [Obs(kind, "A", pid, stdev=sd)]))
+    elif d == "iso":    P.append(Pt("I", 50, 50, xy="adj"))
     elif d == "isonc":  P.append(Pt("J", 50, 50, xy="adj", ax=False))
-    elif d == "u1d":
-        P.append(Pt("U", 50, 150, xy="adj", ax=False)); C.append(Cluster("obs", [Obs("distance", "A", "U", stdev=5.0)]))
-    elif d == "u1r":
-        P.append(Pt("T", 150, 150, xy="adj", ax=False)); C[1].obs.append(st("B", "T"))
-    elif d == "v1d":
-        P.append(Pt("V", 150, 50, xy="adj")); C.append(Cluster("obs", [Obs("distance", "A", "V", stdev=5.0)]))
-    elif d == "v1r":
-        P.append(Pt("Y", 50, 100, xy="adj")); C[1].obs.append(st("B", "Y"))
     elif d == "w2d":
         P.append(Pt("W", 50, 0, xy="adj"))
         C.append(Cluster("obs", [Obs("distance", "A", "W", stdev=5.0), Obs("distance", "B", "W", stdev=5.0)]))
@@ -145,9 +167,6 @@ def add_struct(net, names, d):
     elif d == "iso3":   P.append(Pt("I", 50, 50, 10, xy="adj", zs="adj"))
     elif d == "iso3nc": P.append(Pt("J", 50, 50, 10, xy="adj", zs="adj", ax=False, az=False))
     elif d == "isoz":   P.append(Pt("K", 50, 150, 10, xy="fix", zs="adj"))
-    elif d == "u1s":
-        P.append(Pt("U", 50, 150, 10, xy="adj", zs="adj", ax=False, az=False))
-        C.append(Cluster("obs", [Obs("s-distance", "A", "U", stdev=5.0)]))
     elif d == "isoL":   P.append(Pt("I", z=10, zs="adj"))
     elif d == "isoLnc": P.append(Pt("J", z=10, zs="adj", az=False))
     else:
@@ -188,7 +207,9 @@ def scalars(net):
                 s.sigma = o.stdev
                 pts = [p for p in (o.frm, o.to, o.bs, o.fs) if p is not None]
                 if k in ("direction", "distance", "angle", "azimuth"): s.needs = [(p, "xy") for p in pts]
-                elif k in ("s-distance", "z-angle"):                  s.needs = [(p, c2) for p in pts for c2 in ("xy", "z")]
+                elif k == "s-distance":                               s.needs = [(p, c2) for p in pts for c2 in ("xy", "z")]
+                elif k == "z-angle":     # LocalRevision::z_angle deliberately asks for known xy only (test_xy)
+                    s.needs = [(p, c2) for p in pts for c2 in ("xy?", "z")]
                 elif k == "dh":                                       s.needs = [(p, "z") for p in pts]
                 elif k == "vec":   s.needs = [(p, "z" if comp == 2 else "xy") for p in pts]
                 elif k == "coord": s.needs = [(o.to, "z" if tag.endswith("z") else "xy")]
@@ -320,12 +341,12 @@ def _row_xy(net, s, pid):
         ux, uy, d = along(other, pid); return (ux, uy)
     if k in ("direction", "azimuth"):
         other = o.to if pid == o.frm else o.frm
-        ux, uy, d = along(other, pid); return (-uy, ux)
+        ux, uy, d = along(other, pid); return (-uy / d, ux / d)
     if k == "angle":
         if pid == o.frm:
             u1 = along(o.frm, o.bs); u2 = along(o.frm, o.fs)
             return (-u2[1] / u2[2] + u1[1] / u1[2], u2[0] / u2[2] - u1[0] / u1[2])
-        ux, uy, d = along(o.frm, pid); return (-uy, ux)
+        ux, uy, d = along(o.frm, pid); return (-uy / d, ux / d)
     if k in ("vec", "coord"):
         return (1.0, 0.0) if s.tag in ("dx", "coordinate-x") else (0.0, 1.0)
     return None
@@ -345,8 +366,9 @@ def revise(net, S, usable0, dead0):
         for s in S:
             if s.idx in dead: continue
             for g in s.needs:
-                if not usable.get(g, False):
-                    dead[s.idx] = "point:%s/%s" % g; changed = True; break
+                ok = usable0.get((g[0], "xy"), False) if g[1] == "xy?" else usable.get(g, False)
+                if not ok:
+                    dead[s.idx] = "point:%s/%s" % (g[0], g[1].rstrip("?")); changed = True; break
         for c in net.clusters:
             dirs = [s for s in S if s.cl is c and s.tag == "direction" and s.idx not in dead]
             if dirs and len({s.to for s in dirs}) < 2:
@@ -354,12 +376,20 @@ def revise(net, S, usable0, dead0):
                 changed = True
         for g in list(usable):
             if not usable[g] or status[g] not in ("adj", "con"): continue
-            touching = [s for s in S if s.idx not in dead and g in s.needs]
+            touching = [s for s in S if s.idx not in dead and (g in s.needs or (g[0], g[1] + "?") in s.needs)]
             if g[1] == "z":
                 if not touching:
                     usable[g] = False; lost[g] = "undetermined"; changed = True
                 continue
-            rows = [r for r in (_row_xy(net, s, g[0]) for s in touching) if r is not None]
+            rows = []; own = {}
+            for s in touching:
+                r = _row_xy(net, s, g[0])
+                if r is None: continue
+                if s.tag == "direction" and s.frm == g[0]: own.setdefault(id(s.cl), []).append(r)
+                else: rows.append(r)
+            for rs in own.values():      # the orientation unknown of the point's own set absorbs one row
+                rows += [(r[0] - rs[0][0], r[1] - rs[0][1]) for r in rs[1:]]
+            rows = [r for r in rows if math.hypot(*r) > 0]
             rank2 = False
             for r in rows[1:]:
                 if abs(rows[0][0] * r[1] - rows[0][1] * r[0]) > 1e-9 * math.hypot(*rows[0]) * math.hypot(*r):
@@ -396,6 +426,13 @@ def reference(net):
             s = R.S[i]
             f = sa / s.sigma if (s.tag in ANGULAR and s.sigma) else 1.0
             if m[1] * f > tol: R.d10.add(i)
+    # observations that are structurally dead only because their point is removed LATER than the
+    # listing is printed (null_space path) can still appear in the table: keep their misclosures
+    R.mis_dead = {}
+    for s in R.S:
+        if s.idx in R.dead0 and all(R.usable0.get((g[0], g[1].rstrip("?")), False) for g in s.needs):
+            try: R.mis_dead[s.idx] = misclosure(net, s, R.usable0, z0)
+            except (TypeError, ZeroDivisionError): pass
     return R
 
 
@@ -480,9 +517,12 @@ def build_case(cs):
 
 def enumerate_cases(tier):
     """the complete list of case strings of a tier (deterministic order).
-    singles: every defect x tol-abs {10,1000} x sigma-apr {1,10,100}, every template of the tier;
-    pairs: quick -- blunder sizes {0.9,1.1} (structural x blunder: 1.1), (tol,sa) in {(1000,1),(1000,100),(10,10)};
-           thorough -- all six sizes and all (tol,sa) on T2.0/T3/TL, the quick regime on the placements T2.1, T2.2"""
+    "full" regime (thorough, templates T2.0 / T3 / TL): every single defect x tol-abs {10,1000} x
+      sigma-apr {1,10,100}; blunder pairs of all six sizes (T3: four sizes) at all (tol,sa); structural x
+      blunder {0.9,1.1} at all (tol,sa); structural pairs at (1000,10) and (10,1).
+    "light" regime (quick; thorough on the placements T2.1, T2.2): blunder singles at all (tol,sa);
+      structural singles at (1000,10) and (10,100); blunder pairs {0.9,1.1} at (10,10) and (1000,100)
+      (T3: (10,10) only); structural x blunder 1.1 at (10,10); structural pairs at (1000,10)."""
     thorough = tier == "thorough"
     out = []
     tpls = ["T2.0", "T3", "TL"] + (["T2.1", "T2.2"] if thorough else [])
@@ -490,27 +530,32 @@ def enumerate_cases(tier):
         base = tpl.split(".")[0]
         structs = ["S:" + s for s in STRUCT[base]]
         full = thorough and tpl in ("T2.0", "T3", "TL")
-        pf = F_SIZES if full else (0.9, 1.1)
+        if full: pf = F_SIZES if base != "T3" else (0.9, 0.999, 1.001, 1.1)
+        else:    pf = (0.9, 1.1)
         for tol in (10.0, 1000.0):
             blun = [(tg, f) for tg in TARGETS[base] for f in F_SIZES]
             if tol == 1000.0: blun += [(tg, 1.0) for tg in EXACT[base]]
             for sa in (1.0, 10.0, 100.0):
+                ts = (tol, sa)
                 out.append(case_str(tpl, (), tol, sa))
                 for tg, f in blun: out.append(case_str(tpl, ("B:%s:%g" % (tg, f),), tol, sa))
-                for d in structs: out.append(case_str(tpl, (d,), tol, sa))
-                if not full and (tol, sa) not in ((1000.0, 1.0), (1000.0, 100.0), (10.0, 10.0)): continue
+                if full or ts in ((1000.0, 10.0), (10.0, 100.0)):
+                    for d in structs: out.append(case_str(tpl, (d,), tol, sa))
                 pb = [(tg, f) for tg, f in blun if f in pf]
-                for i in range(len(pb)):
-                    for j in range(i + 1, len(pb)):
-                        if pb[i][0].split(".")[0] == pb[j][0].split(".")[0]: continue
-                        out.append(case_str(tpl, ("B:%s:%g" % pb[i], "B:%s:%g" % pb[j]), tol, sa))
-                sb = pb if full else [(tg, f) for tg, f in pb if f == 1.1]
-                for s in structs:
-                    for tg, f in sb:
-                        out.append(case_str(tpl, (s, "B:%s:%g" % (tg, f)), tol, sa))
-                for i in range(len(structs)):
-                    for j in range(i + 1, len(structs)):
-                        out.append(case_str(tpl, (structs[i], structs[j]), tol, sa))
+                if full or ts == (10.0, 10.0) or (ts == (1000.0, 100.0) and base != "T3"):
+                    for i in range(len(pb)):
+                        for j in range(i + 1, len(pb)):
+                            if pb[i][0].split(".")[0] == pb[j][0].split(".")[0]: continue
+                            out.append(case_str(tpl, ("B:%s:%g" % pb[i], "B:%s:%g" % pb[j]), tol, sa))
+                if full or ts == (10.0, 10.0):
+                    sb = [(tg, f) for tg, f in blun if f in ((0.9, 1.1) if full else (1.1,))]
+                    for s in structs:
+                        for tg, f in sb:
+                            out.append(case_str(tpl, (s, "B:%s:%g" % (tg, f)), tol, sa))
+                if ts == (1000.0, 10.0) or (full and ts == (10.0, 1.0)):
+                    for i in range(len(structs)):
+                        for j in range(i + 1, len(structs)):
+                            out.append(case_str(tpl, (structs[i], structs[j]), tol, sa))
     return out
 
 
@@ -633,8 +678,10 @@ def reduce_net(net, S, drop_obs, drop_pts):
         c.obs = obs; newc.append(c)
     n.clusters = newc
     pts = []
+    # only a zenith angle may go on using the coordinates of a point whose xy was removed
+    used = {q for c in n.clusters for o in c.obs if o.kind == "z-angle" for q in (o.frm, o.to)}
     for p in n.points:
-        if (p.id, "xy") in drop_pts: p.xy = None
+        if (p.id, "xy") in drop_pts: p.xy = "fix" if (p.id in used and p.ax is not False) else None
         if (p.id, "z") in drop_pts: p.zs = None
         if p.xy is None and p.zs is None: continue
         pts.append(p)
@@ -742,7 +789,7 @@ def evaluate_run(net, R, run, alg, V, O):
         if "unparsed" in r:
             V.append(("C14|abs-term-listing|unreadable-row", "alg=%s %r" % (alg, r["unparsed"]))); continue
         key = (r["tag"], r["from"], r["to"], r["fs"])
-        cand = [s for s in S if s.key() == key and s.idx not in listed and s.idx not in R.dead0]
+        cand = [s for s in S if s.key() == key and s.idx not in listed and (s.idx not in R.dead0 or s.idx in R.mis_dead)]
         hit = None
         for s in cand:
             dv = abs(s.value() - r["val"])
@@ -752,6 +799,14 @@ def evaluate_run(net, R, run, alg, V, O):
             V.append(("C14|abs-term-listing|row-matches-no-input-observation|%s" % r["tag"], "alg=%s row %s" % (alg, r)))
         else:
             listed.add(hit.idx)
+            if hit.idx in R.mis_dead:       # tested before its point was removed: the row must still be justified
+                m = R.mis_dead[hit.idx]
+                if not m[0] > R.tol:
+                    f = R.sa / hit.sigma if (hit.tag in ANGULAR and hit.sigma) else 1.0
+                    sub = "depends-on-sigma-apr" if (R.exceed_code and m[1] * f > R.tol) else "spurious"
+                    V.append(("C14|abs-term-threshold|%s|%s" % (sub, hit.tag),
+                              "alg=%s %s (on a point removed later): listed as outlying with reference positional misclosure %.6f mm, tol-abs %g, sigma-apr %g, stdev %s" % (
+                                  alg, hit.label(), m[0], R.tol, R.sa, hit.sigma)))
             if hit.idx not in ex_obs:
                 V.append(("C14|abs-term-listing|listed-but-adjusted|%s" % hit.tag, "alg=%s %s is listed as outlying but takes part in the adjustment" % (alg, hit.label())))
     if T["outlying"] is not None and not T["removed_msg"]:
